@@ -182,3 +182,18 @@ Theorem C03_sane_configuration : forall c, BuildPathP.cfg_sane c = true -> foral
   wf_layers c (read_layer_files c f) = true /\ UmountAllP.roots_apart c (read_layer_files c f) = true.
 Proof. exact BuildPathP.sane_layers. Qed.
 Print Assumptions C03_sane_configuration.
+
+(* ---- the regenerated constants this property's predicate / model rest on, against literals.
+   Gen/Consts.v is rewritten from the source of /repo on every run, so without this theorem an
+   edit of one of these constants would move model, predicate and code together and nothing
+   would be reported.  Used by: the predicate C03.spec / C03.kf (through the helpers of Cases/C02.v and Model/Layers.v).
+   "frozen" = no manual text gives the value; it is the value of the reviewed tree. *)
+From LC Require Import Gen.Consts Proofs.C03PinsP.
+Local Open Scope string_scope.
+Theorem C03_constants_pinned :
+  (* doc/layercake_directories.adoc, manual page LAYER DIRECTORY: "layerconfig" *)
+  D_LayerconfigFile = bs "layerconfig" /\
+  (* manual page / doc/layercake_layerconfig.adoc: "default_layerconfig.skel" in the base directory *)
+  D_SkeletonLayerconfigFile = bs "default_layerconfig.skel".
+Proof. exact c03_constants_pinned. Qed.
+Print Assumptions C03_constants_pinned.
